@@ -1897,7 +1897,7 @@ class Machine:
                 raise Unanalysable("indirect call through %s" % (f[0] if f else "?"))
         inst = self.p.insts[iid]
         dest_loc = None
-        prim = self.prims.get(inst["npath"])
+        prim = self.prims.get(inst["npath"].replace("std::", "core::"))
         if prim is None and inst["crate"] != self.p.f["crate"]:
             prim = self.prims.get("*" + inst["npath"].split("::")[-1]) if False else None
         if prim is not None:
